@@ -12,8 +12,10 @@ THEOREM_STATEMENTS = []
 
 
 def streams(seed, tier):
-    return _hc.build_streams(["pair", "ideal", "live", "reuse", "chanmix"], seed, tier, 0.8)
+    return _hc.build_streams(["pair", "ideal", "live", "reuse", "chanmix"], seed, tier, 0.8) + [_hc.codec_roundtrip_stream(seed, tier)]
 
 
 def oracle(name, ops, out):
+    if _hc.stream_of(name) == "rt":
+        return _hc.codec_oracle(name, ops, out)
     return _hc.run_oracles({"*": [crash_oracle, subsequence_oracle]}, name, ops, out)
